@@ -582,6 +582,14 @@ func runC02(c *caseWriter) (string, bool, map[string]int) {
 			}
 		}
 	}
+	// srcset values whose candidates are separated by each kind of ASCII white space / control
+	for _, ws := range []string{" ", "\t", "\n", "\f", "\r", "\v", "\x00", "\x1f", "\u00a0", "\u2028"} {
+		for _, v := range []string{"/a.png" + ws + ",javascript:alert(1)", "/a.png 1x," + ws + "javascript:alert(1) 2x", "javascript:alert(1)" + ws + "1x", "/a.png" + ws + "1x,javascript:alert(1)" + ws + "2x",
+			ws + "javascript:alert(1)", "/a.png," + ws + "javascript:alert(1)" + ws + ",/b.png"} {
+			js(`<img srcset="{{.}}">`, c02Str(v))
+			js(`<source srcset='{{.}}'>`, c02Str(v))
+		}
+	}
 	// break / continue taken while a script / style / attribute value is still open (the unchanged engine
 	// panics on them: finding D7 of C08); special element bodies with non-ASCII bytes before the end tag
 	for _, t := range []string{
